@@ -23,9 +23,49 @@ package main
 
 import (
 	"runtime/debug"
+	"sync/atomic"
+	"time"
 
 	"verif/h"
 )
+
+// Liveness guard (not an oracle): ML-DSA signing is a rejection loop and the samplers are rejection
+// samplers; with broken arithmetic or a broken acceptance test they may never return. Each guarded leaf
+// runs in its own goroutine; if it has not finished after a limit that is three to four orders of
+// magnitude above its normal duration (tink signs in < 10 ms, a leaf takes < 1 s), the leaf is reported
+// as a violation ("no-termination") and the remaining guarded leaves are skipped (the stuck goroutine
+// cannot be stopped). Never fires on a terminating implementation.
+var hung atomic.Bool
+
+func guard(body func(x *h.X)) func(x *h.X) {
+	return func(x *h.X) {
+		limit := 60 * time.Second
+		if x.Thorough() {
+			limit = 300 * time.Second
+		}
+		if hung.Load() {
+			if !x.Replaying() {
+				x.Outcome("skipped-after-non-termination")
+				return
+			}
+			limit = 10 * time.Second
+		}
+		done := make(chan any, 1)
+		go func() {
+			defer func() { done <- recover() }()
+			body(x)
+		}()
+		select {
+		case r := <-done:
+			if r != nil {
+				panic(r)
+			}
+		case <-time.After(limit):
+			hung.Store(true)
+			x.Fail("no-termination", "a call into tink's ML-DSA code did not return within %v (key generation, signing and verification normally take < 10 ms): non-terminating rejection loop", limit)
+		}
+	}
+}
 
 func main() {
 	debug.SetGCPercent(400) // allocation-heavy enumeration (tink allocates k polynomials per decode)
@@ -42,18 +82,18 @@ func main() {
 			{Name: "bit-packing", Body: sectionPacking, Bound: -1},
 			{Name: "hint-pack", Body: sectionHintPack, Bound: -1},
 			{Name: "hint-decode", Body: sectionHintDecode, Bound: -1},
-			{Name: "sampling", Body: sectionSampling, Bound: -1},
-			{Name: "keygen", Body: sectionKeygen, Bound: -1},
-			{Name: "sign-deterministic", Body: sectionSignDet, Bound: -1},
-			{Name: "context-too-long", Body: sectionCtxTooLong, Bound: -1},
-			{Name: "sign-hedged", Body: sectionSignHedged, Bound: -1},
-			{Name: "verify-bitflips", Body: sectionBitFlips, Bound: -1},
-			{Name: "verify-malformed", Body: sectionMalformed, Bound: -1},
-			{Name: "verify-crafted-boundary", Body: sectionCrafted, Bound: -1},
-			{Name: "signer-boundary", Body: sectionSignerBoundary, Bound: -1},
-			{Name: "public-api", Body: sectionPublicAPI, Bound: -1},
-			{Name: "prehash-external-mu", Body: sectionPrehash, Bound: -1},
-			{Name: "composite", Body: sectionComposite, Bound: -1},
-			{Name: "jwt-mldsa", Body: sectionJWT, Bound: -1},
+			{Name: "sampling", Body: guard(sectionSampling), Bound: -1},
+			{Name: "keygen", Body: guard(sectionKeygen), Bound: -1},
+			{Name: "sign-deterministic", Body: guard(sectionSignDet), Bound: -1},
+			{Name: "context-too-long", Body: guard(sectionCtxTooLong), Bound: -1},
+			{Name: "sign-hedged", Body: guard(sectionSignHedged), Bound: -1},
+			{Name: "verify-bitflips", Body: guard(sectionBitFlips), Bound: -1},
+			{Name: "verify-malformed", Body: guard(sectionMalformed), Bound: -1},
+			{Name: "verify-crafted-boundary", Body: guard(sectionCrafted), Bound: -1},
+			{Name: "signer-boundary", Body: guard(sectionSignerBoundary), Bound: -1},
+			{Name: "public-api", Body: guard(sectionPublicAPI), Bound: -1},
+			{Name: "prehash-external-mu", Body: guard(sectionPrehash), Bound: -1},
+			{Name: "composite", Body: guard(sectionComposite), Bound: -1},
+			{Name: "jwt-mldsa", Body: guard(sectionJWT), Bound: -1},
 		})
 }
